@@ -25,6 +25,34 @@ def gcc_bad_lines(text):
 def run(ctx):
     proved = stages.lean_stage(ctx, "PsycheModel.Props.C11")
     stages.cxx_stage(ctx, "ndebug")
+    # ---- tie of the Lean model of typesAreCompatible (Compat.lean; theorems compat_refl, compat_refl_ignoring_qualifiers): the REAL function on
+    # every ordered pair of the types of generated declarations (drawn types and their one-place variations; typedef names stand for their
+    # resolved synonym) x the four flag combinations, against the model's verdicts
+    from gen.compatgen import program as compat_program
+    from .. import leanb
+    import random as _random
+    cprogs = [compat_program(_random.Random(ctx.rng.randrange(1 << 30)), n=12 + i % 6, maxdepth=3 + i % 3) for i in range(120 if ctx.quick else 3000)]
+    cans = stages.run_harness(ctx, "compat", [t.encode().hex() for t in cprogs], flavour="ndebug")
+    cmodel = leanb.model("compat", "\n".join(a if " | " in a else "0 |  | " for a in cans) + "\n")
+    npairs = ncdis = ntrue = 0
+    for text, a, m in zip(cprogs, cans, cmodel):
+        if a.startswith(("CRASH", "HANG", "bad", "no-model")):
+            ctx.report("compat-crash:" + text[-60:], "typesAreCompatible on the declarations of a generated unit did not complete: %s" % a[:200], {"component": "compat", "case": text.encode().hex(), "text": text})
+            continue
+        n_, tys, bits = a.split(" | ")
+        npairs += len(bits)
+        ntrue += bits.count("1")
+        if m != bits:
+            ncdis += 1
+            if ncdis <= 3:
+                k = next((j for j in range(min(len(m), len(bits))) if m[j] != bits[j]), 0)
+                n = int(n_)
+                i1, i2, fl = k // (4 * n), (k // 4) % n, k % 4
+                tl = tys.split(" ; ")
+                ctx.report("compat-corr:" + text[-60:], "typesAreCompatible(v%d, v%d, voidAsAny=%d, ignoreQualifier=%d) = %s, the Lean model of it gives %s; types %s / %s; unit:\n%s"
+                           % (i1, i2, fl >> 1, fl & 1, bits[k:k + 1], m[k:k + 1] if m != "BAD" else "(unreadable type)", tl[i1] if i1 < len(tl) else "?", tl[i2] if i2 < len(tl) else "?", text[-900:]),
+                           {"component": "compat", "case": text.encode().hex(), "text": text, "impl": bits[:400], "model": m[:400]}, no_input=True)
+    ctx.notes["compat_tie"] = {"units": len(cprogs), "verdicts_compared": npairs, "of_which_compatible": ntrue, "disagreements": ncdis}
     T = tests()
     if ctx.quick:
         # the complete pair tables of six representative binary/assignment operators + everything else
